@@ -45,6 +45,8 @@ impl Default for SupervisionTree {
 impl SupervisionTree {
     /// Transactionally replace a child's supervisor and update both parents' child sets.
     pub(crate) fn link(child: &ActorCell, supervisor: ActorCell) -> bool {
+        #[cfg(feature = "verif")]
+        crate::verif::point(crate::verif::pt::LINK_BEFORE_LOCK, crate::verif::id_u64(&child.get_id()), crate::verif::id_u64(&supervisor.get_id()));
         let _mutation_guard = TREE_MUTATION_LOCK.lock().unwrap();
 
         if child.get_status() >= super::actor_cell::ActorStatus::Draining
@@ -53,6 +55,8 @@ impl SupervisionTree {
             return false;
         }
 
+        #[cfg(feature = "verif")]
+        crate::verif::point(crate::verif::pt::LINK_IN_LOCK, crate::verif::id_u64(&child.get_id()), crate::verif::id_u64(&supervisor.get_id()));
         let child_id = child.get_id();
         let mut new_children_guard = supervisor.inner.tree.children.lock().unwrap();
         let Some(new_children) = new_children_guard.as_mut() else {
@@ -84,6 +88,8 @@ impl SupervisionTree {
 
     /// Unlink a child if `supervisor` is still its current supervisor.
     pub(crate) fn unlink(child: &ActorCell, supervisor: &ActorCell) {
+        #[cfg(feature = "verif")]
+        crate::verif::point(crate::verif::pt::UNLINK_BEFORE_LOCK, crate::verif::id_u64(&child.get_id()), crate::verif::id_u64(&supervisor.get_id()));
         let _mutation_guard = TREE_MUTATION_LOCK.lock().unwrap();
         let mut current_supervisor = child.inner.tree.supervisor.lock().unwrap();
         if !current_supervisor
@@ -102,6 +108,8 @@ impl SupervisionTree {
 
     /// Close this actor's child set and detach the children for iterative termination.
     pub(crate) fn take_children(parent: &ActorCell) -> Vec<ActorCell> {
+        #[cfg(feature = "verif")]
+        crate::verif::point(crate::verif::pt::TAKE_CHILDREN_BEFORE_LOCK, crate::verif::id_u64(&parent.get_id()), 0);
         let _mutation_guard = TREE_MUTATION_LOCK.lock().unwrap();
         let mut children = parent.inner.tree.children.lock().unwrap();
         let cells = children
@@ -279,6 +287,8 @@ impl SupervisionTree {
             (*guard).clone()
         };
 
+        #[cfg(feature = "verif")]
+        crate::verif::point(crate::verif::pt::NOTIFY_SUP_BEFORE_SEND, supervisor_target.as_ref().map_or(u64::MAX, |s| crate::verif::id_u64(&s.get_id())), 0);
         // Send to all monitors (best-effort, outside the lock)
         #[cfg(feature = "monitors")]
         if !monitor_targets.is_empty() {
@@ -317,4 +327,37 @@ impl SupervisionTree {
     pub(crate) fn get_num_parents(&self) -> usize {
         usize::from(self.supervisor.lock().unwrap().is_some())
     }
+}
+
+/// One actor's view of the supervision tree: (children ids or `None` once closed, supervisor id)
+#[cfg(feature = "verif")]
+pub(crate) type VerifTreeView = (Option<Vec<ActorId>>, Option<ActorId>);
+
+/// Read the tree relations of `cells` atomically with respect to structural updates
+/// (taken under the same writer lock `link`/`unlink`/`take_children` use).
+#[cfg(feature = "verif")]
+pub(crate) fn verif_snapshot(cells: &[ActorCell]) -> Vec<VerifTreeView> {
+    let _mutation_guard = TREE_MUTATION_LOCK.lock().unwrap();
+    cells
+        .iter()
+        .map(|cell| {
+            let children = cell
+                .inner
+                .tree
+                .children
+                .lock()
+                .unwrap()
+                .as_ref()
+                .map(|m| m.keys().copied().collect::<Vec<_>>());
+            let supervisor = cell
+                .inner
+                .tree
+                .supervisor
+                .lock()
+                .unwrap()
+                .as_ref()
+                .map(|s| s.get_id());
+            (children, supervisor)
+        })
+        .collect()
 }
